@@ -107,6 +107,11 @@ func c01GetAlphabet() *c01Alphabet {
 				}
 				a.requests = append(a.requests, c04Req{q, fmt.Sprintf("hostname=%s client=%v", h, withClient)})
 			}
+			// the same hostname request on a request object that was used for a URL before
+			// (the way a pool of request objects hands them out)
+			q := rules.NewRequest("https://ads5.example.org/banner/ads.js?x=1", "https://example.com/page", rules.TypeScript)
+			rules.FillRequestForHostname(q, h)
+			a.requests = append(a.requests, c04Req{q, fmt.Sprintf("hostname=%s on a request object filled for a URL before", h)})
 		}
 		c01Alpha = a
 	})
@@ -281,10 +286,66 @@ func (m *c01Model) run(hist []int) statespace.Outcome {
 		m.violate("no-crash", map[string]any{"lists": lists}, fmt.Sprintf("NewNetworkEngine panics: %v", p), hist)
 		return statespace.Outcome{Key: "panic"}
 	}
+	// the other route to an engine over the same lists: an empty engine to which
+	// every scanned network rule is added by hand
+	var ne2 *urlfilter.NetworkEngine
+	if len(hist) <= 2 || m.c.Thorough() {
+		var ls2 []filterlist.RuleList
+		for _, l := range ls {
+			sl := l.(*filterlist.StringRuleList)
+			// (loaded with IgnoreCosmetic: network rules are none of its business)
+			ls2 = append(ls2, &filterlist.StringRuleList{ID: sl.ID, RulesText: sl.RulesText, IgnoreCosmetic: true})
+		}
+		st2, err2 := filterlist.NewRuleStorage(ls2)
+		if err2 != nil {
+			panic(HarnessError(err2.Error()))
+		}
+		if p := protect(func() {
+			ne2 = urlfilter.NewNetworkEngineSkipStorageScan(st2)
+			sc := st2.NewRuleStorageScanner()
+			for sc.Scan() {
+				r, idx := sc.Rule()
+				if nr, ok := r.(*rules.NetworkRule); ok {
+					ne2.AddRule(nr, idx)
+				}
+			}
+		}); p != nil {
+			m.violate("no-crash", map[string]any{"lists": lists, "route": "NewNetworkEngineSkipStorageScan+AddRule"}, fmt.Sprintf("building the engine rule by rule panics: %v", p), hist)
+			return statespace.Outcome{Key: "panic"}
+		}
+	}
+	listsOf := map[string]map[int]bool{}
+	for li, lines := range lists {
+		for _, l := range lines {
+			if listsOf[l] == nil {
+				listsOf[l] = map[int]bool{}
+			}
+			listsOf[l][c01ListIDs[li]] = true
+		}
+	}
 	var obs strings.Builder
 	reported := false
 	for _, q := range a.requests {
 		var got []*rules.NetworkRule
+		if ne2 != nil && !reported {
+			var got2 []*rules.NetworkRule
+			if p := protect(func() { got2 = ne2.MatchAll(q.q) }); p != nil {
+				m.violate("no-crash", map[string]any{"lists": lists, "request": q.desc, "route": "AddRule"}, fmt.Sprintf("MatchAll(%s) on the engine built rule by rule panics: %v", q.desc, p), hist)
+				break
+			}
+			var want2 []string
+			for _, h := range all {
+				if h.rule.Match(q.q) {
+					want2 = append(want2, h.text)
+				}
+			}
+			if g2, w2 := sortedSet(netTexts(got2)), sortedSet(want2); !eqStrings(g2, w2) {
+				reported = true
+				lost, added := diffSets(w2, g2)
+				m.violate("matchall-equals-linear-scan", map[string]any{"lost": lost, "added": added, "route": "NewNetworkEngineSkipStorageScan+AddRule"},
+					fmt.Sprintf("lists %v, engine built with NewNetworkEngineSkipStorageScan and AddRule for every scanned rule (lists loaded with IgnoreCosmetic), request [%s]: MatchAll returns %v, the rules that individually match are %v", lists, q.desc, g2, w2), hist)
+			}
+		}
 		if p := protect(func() { got = ne.MatchAll(q.q) }); p != nil {
 			m.violate("no-crash", map[string]any{"lists": lists, "request": q.desc}, fmt.Sprintf("MatchAll(%s) panics: %v", q.desc, p), hist)
 			break
@@ -308,6 +369,9 @@ func (m *c01Model) run(hist []int) statespace.Outcome {
 		for _, r := range got {
 			if !r.Match(q.q) {
 				m.violate("returned-rule-matches", map[string]any{"rule": r.RuleText}, fmt.Sprintf("MatchAll(%s) returned %q which does not match", q.desc, r.RuleText), hist)
+			}
+			if r.Text() != r.RuleText || (listsOf[r.RuleText] != nil && !listsOf[r.RuleText][r.GetFilterListID()]) {
+				m.violate("returned-rule-is-the-listed-one", map[string]any{"rule": r.RuleText}, fmt.Sprintf("lists %v: MatchAll(%s) returned a rule with Text()=%q RuleText=%q GetFilterListID()=%d, no list with that id holds it", lists, q.desc, r.Text(), r.RuleText, r.GetFilterListID()), hist)
 			}
 		}
 		obs.WriteString(strconv.Itoa(len(g)))
